@@ -2,7 +2,7 @@ package main
 
 // Property C11 — get-or-create of the segstore table (suite "conc", op lines `c11c`).
 //
-//	c11c <S> <label> …      label ::= c<t> | f<i> | e<i>       (t < 16: ingest call t on index c11c<t mod S>; i < S)
+//	c11c <S> <label> …      label ::= c<t> | f<i> | e<i> | n<i>   (t < 16: ingest call t on index c11c<t mod S>; i < S)
 //
 // DETERMINISTIC REPLAY of schedules of the Lean machine lean/SigModel/Model/ConcCreate.lean on the real writer.
 // c<t>: next step of ingest call t — every call is one goroutine running the REAL eswriter.ProcessIndexRequestPle
@@ -11,9 +11,13 @@ package main
 // (cmd/overlaygen/c11c.go: get, lock, recheck, build, insert, unlock, append) and, between the read and the write
 // of the suffix file, by the product hook hooks.GlobalHooks.GetNextSuffixHook.  f<i>: flush + forced rotation of
 // the registered store of index i; e<i>: one pass of the real removeStaleSegments over the (aged) registered store
-// of index i.  The driver tracks who holds allSegStoresLock from the pause points it has SEEN (resumed from "lock"
+// of index i; n<i>: the same pass with the stores' idle time left as it is — every store of a replay is seconds old, far
+// from the 900 s horizon, so the pass must remove nothing (the model has no step for it; a removal is logged as
+// `n<i>:removed-a-store-in-use`).  The driver tracks who holds allSegStoresLock from the pause points it has SEEN (resumed from "lock"
 // … resumed from "unlock" / left createSegStore with a deferred Unlock) and, exactly like the model, skips a label
 // whose step needs that lock while a stopped call holds it — so the unchanged code can never be driven into a wait.
+// An AddEntry on a store that removeStaleSegments has removed appends nothing (errSegStoreRemoved): the call shows up
+// at the "get" point again and its later steps are scheduled like those of a fresh call.
 // A deferred Unlock is shown as a step of its own when the call is next scheduled (the real lock is already free
 // then; the driver merely does not use that freedom).  After the schedule the calls are completed (lock holder
 // first, then by id).  Answer line = lean/Oracle/C11Create.lean for the same line:
@@ -45,7 +49,7 @@ import (
 const c11cMaxThreads = 16
 
 type c11cLabel struct {
-	kind byte // 'c' 'f' 'e'
+	kind byte // 'c' 'f' 'e' 'n'
 	id   int
 }
 
@@ -60,7 +64,7 @@ func c11cParse(line string) (int, []c11cLabel, bool) {
 	}
 	var ls []c11cLabel
 	for _, t := range f[2:] {
-		if len(t) < 2 || (t[0] != 'c' && t[0] != 'f' && t[0] != 'e') {
+		if len(t) < 2 || (t[0] != 'c' && t[0] != 'f' && t[0] != 'e' && t[0] != 'n') {
 			return 0, nil, false
 		}
 		n, okN := c11Num(t[1:])
@@ -86,18 +90,18 @@ var c11cProg = []string{"lock", "recheck", "sufRead", "sufWrite", "insert", "unl
 
 type c11cMThread struct {
 	stream  int
-	pc      string // idle | create | append | done
+	pc      string // idle | create | append | retry | done
 	todo    []string
 	suf     int
 	mine    int
 	ret     int
 	viaGet  bool // got its store from getSegStore
-	evicted bool // its store was evicted between the get and the append
 }
 
 type c11cMStore struct {
 	stream, suffix int
 	events         int
+	removed        bool
 }
 
 type c11cModel struct {
@@ -110,7 +114,7 @@ type c11cModel struct {
 	// counters for the tags
 	maxPastNilCheck int // largest number of calls of one stream that were past a failed getSegStore before the stream's insert
 	blockedProbes   int
-	lostAcks        int
+	retries         int // AddEntry on a store that removeStaleSegments had removed
 	evictions       int
 	creations       int
 	rechecksHit     int
@@ -133,7 +137,7 @@ func c11cNewModel(S int) *c11cModel {
 func (m *c11cModel) next(t int) (string, bool) {
 	th := &m.th[t]
 	switch th.pc {
-	case "idle":
+	case "idle", "retry":
 		return "get", m.lock < 0
 	case "create":
 		if th.todo[0] == "lock" {
@@ -221,11 +225,14 @@ func (m *c11cModel) call(t int) string {
 		}
 		m.after(th, th.todo[1:])
 	case "append":
+		if th.ret >= 0 && m.stores[th.ret].removed {
+			// errSegStoreRemoved: nothing appended, the call starts over with getSegStore
+			th.pc = "retry"
+			m.retries++
+			return st
+		}
 		if th.ret >= 0 {
 			m.stores[th.ret].events++
-			if m.table[th.stream] != th.ret {
-				m.lostAcks++
-			}
 		}
 		th.pc = "done"
 	}
@@ -246,12 +253,7 @@ func (m *c11cModel) evict(i int) bool {
 	if m.lock >= 0 || m.table[i] < 0 || m.stores[m.table[i]].events != 0 {
 		return false
 	}
-	r := m.table[i]
-	for t := range m.th {
-		if m.th[t].pc == "append" && m.th[t].ret == r {
-			m.th[t].evicted = true
-		}
-	}
+	m.stores[m.table[i]].removed = true
 	m.table[i] = -1
 	m.evictions++
 	return true
@@ -322,11 +324,17 @@ func c11cTags(S int, labels []c11cLabel) []string {
 	if m.evictions > 0 {
 		tags = append(tags, "create:after-eviction")
 	}
-	if m.lostAcks > 0 {
+	if m.retries > 0 {
 		tags = append(tags, "create:evicted-before-append")
 	}
 	if S > 1 {
 		tags = append(tags, "create:several-streams")
+	}
+	for _, l := range labels {
+		if l.kind == 'n' {
+			tags = append(tags, "create:sweep-over-fresh-stores")
+			break
+		}
 	}
 	return tags
 }
@@ -532,8 +540,8 @@ func (w *c11cWorld) callStep(t int) {
 		w.lock = -1
 		w.steps = append(w.steps, fmt.Sprintf("%d:unlock", t))
 		return
-	} else if th.at == "lock" && w.lock >= 0 {
-		return // Lock() would wait
+	} else if (th.at == "lock" || th.at == "get") && w.lock >= 0 {
+		return // Lock() / getSegStore's RLock (of a call that starts over after errSegStoreRemoved) would wait
 	}
 	prev := th.at
 	name, known := c11cPointStep[prev]
@@ -600,6 +608,22 @@ func (w *c11cWorld) evictStep(i int) {
 	}
 }
 
+// label n<i>: a pass of removeStaleSegments over stores that are NOT stale
+func (w *c11cWorld) sweepStep(i int) {
+	if w.stalled || w.lock >= 0 {
+		return
+	}
+	removed := writer.VerifC11CSweepNoAge(w.index[i])
+	for _, id := range removed {
+		if s := w.byID[id]; s != nil {
+			s.evicted = true
+		}
+	}
+	if len(removed) > 0 {
+		w.steps = append(w.steps, fmt.Sprintf("n%d:removed-a-store-in-use", i))
+	}
+}
+
 func (w *c11cWorld) drain() {
 	for fuel := 0; fuel < 400 && !w.stalled; fuel++ {
 		t := w.lock
@@ -653,6 +677,8 @@ func c11cReplay(line string) {
 			w.flushStep(l.id)
 		case 'e':
 			w.evictStep(l.id)
+		case 'n':
+			w.sweepStep(l.id)
 		}
 	}
 	w.drain()
@@ -890,8 +916,12 @@ func c11cGenLine(r *rand.Rand, tier string) string {
 		// a stream whose store was rotated and removed as stale: the next first ingests race again
 		g.finish(ts[0])
 		g.emit(c11cLabel{'f', i})
-		g.emit(c11cLabel{'e', i})
 		rest := ts[1:]
+		if r.Intn(2) == 0 {
+			// … removed while a call already holds it (got it from getSegStore, has not appended yet)
+			g.emit(c11cLabel{'c', rest[0]})
+		}
+		g.emit(c11cLabel{'e', i})
 		if r.Intn(2) == 0 {
 			for _, t := range rest {
 				g.emit(c11cLabel{'c', t})
@@ -916,7 +946,7 @@ func c11cGenLine(r *rand.Rand, tier string) string {
 			g.shuffle(all, r.Intn(long), 3)
 		}
 	default:
-		// anything: calls, flushes woven in (evictions only where no call holds a store it has not appended to)
+		// anything: calls, flushes and evictions woven in
 		n := 4 + r.Intn(long)
 		for len(g.ls) < n {
 			switch x := r.Intn(10); {
@@ -925,20 +955,19 @@ func c11cGenLine(r *rand.Rand, tier string) string {
 			case x < 9:
 				g.emit(c11cLabel{'f', i})
 			default:
-				safe := true
-				for t := range g.m.th {
-					if g.m.th[t].pc == "append" || g.m.th[t].pc == "create" {
-						safe = false
-					}
-				}
-				if safe {
-					g.emit(c11cLabel{'e', i})
-				}
+				g.emit(c11cLabel{'e', i})
 			}
 		}
 	}
 	if len(g.ls) == 0 {
 		g.emit(c11cLabel{'c', ts[0]})
+	}
+	if r.Intn(3) == 0 {
+		// a removeStaleSegments pass over stores that are not stale, anywhere (no effect in the model)
+		k := r.Intn(len(g.ls) + 1)
+		ls := append([]c11cLabel{}, g.ls[:k]...)
+		ls = append(ls, c11cLabel{'n', i})
+		g.ls = append(ls, g.ls[k:]...)
 	}
 	return c11cFmt(S, g.ls)
 }
@@ -957,10 +986,13 @@ var c11cFixed = []string{
 	"c11c 2 c0 c1 c2 c3 c0 c1 c0 c1 c0 c1 c0 c1 c0 c1 c2 c3 c2 c3",
 	// store rotated and removed as stale, then two first ingests again (suffix file already at 2)
 	"c11c 1 c0 c0 c0 c0 c0 c0 c0 c0 f0 e0 c1 c2 c1 c2 c1 c2 c1 c2 c1 c2",
-	// removeStaleSegments between a call's getSegStore and its AddEntry
+	// removeStaleSegments between a call's getSegStore and its AddEntry (the call must notice and start over)
 	"c11c 1 c0 c0 c0 c0 c0 c0 c0 c0 f0 c1 e0 c1 c2",
 	// … and between createSegStore and AddEntry of the call that created the store
 	"c11c 1 c0 c0 c0 c0 c0 c0 c0 e0 c0 c1",
+	// … the same moments, but the store is seconds old: a pass of removeStaleSegments must leave it alone
+	"c11c 1 c0 c0 c0 c0 c0 c0 c0 n0 c0 c1",
+	"c11c 1 c0 c0 c0 c0 c0 c0 c0 c0 f0 c1 n0 c1 c2",
 }
 
 // ---------------------------------------------------------------- exec side (parent process)
